@@ -339,6 +339,70 @@ def check_action(case, out, versions):
                     "features": {"why": "action", "expected_reject": want_v == "REJECT"}})
 
 
+LIFE_OPS = ["a1", "a2", "c6", "c8"]
+
+
+def lifecycle_cases(maxlen):
+    """family (i): histories over {register method one, register method two, compile at v6, compile at v8} on ONE
+    router (each method registered at most once, at least one registration)"""
+    out = []
+    for n in range(1, maxlen + 1):
+        for h in itertools.product(LIFE_OPS, repeat=n):
+            if h.count("a1") > 1 or h.count("a2") > 1 or not ("a1" in h or "a2" in h):
+                continue
+            if not any(x.startswith("c") for x in h[:-1]):
+                continue    # no compilation before the last operation: nothing that could go stale
+            out.append({"lifecycle": list(h)})
+    return out
+
+
+def check_lifecycle(case, out, versions):
+    """after the history, the router is compiled once more at each version: it must dispatch exactly on the methods
+    registered by then, and its contract must list exactly those"""
+    cnt, oc_ = out["counters"], out["outcomes"]
+    names = {"a1": "one", "a2": "two"}
+    for ver in versions:
+        router = pt.Router("r", pt.BareCallActions(no_op=pt.OnCompleteAction(action=pt.Approve(), call_config=pt.CallConfig.CREATE)),
+                           clear_state=pt.Approve())
+        registered = []
+        try:
+            for op in case["lifecycle"]:
+                if op in names:
+                    router.add_method_handler(make_method(names[op], "M" + names[op]), method_config=pt.MethodConfig(no_op=pt.CallConfig.CALL))
+                    registered.append(names[op])
+                else:
+                    router.compile_program(version=int(op[1:]))
+            approval, _clear, contract = router.compile_program(version=ver)
+        except Exception as e:
+            out["violations"].append({"driver": "lifecycle", "size": len(case["lifecycle"]),
+                                      "title": "v%d history %r: %r" % (ver, case["lifecycle"], e),
+                                      "case": case, "version": ver, "features": {"why": "crash"}})
+            continue
+        listed = sorted(m.name for m in contract.methods)
+        if listed != sorted(registered):
+            out["violations"].append({"driver": "lifecycle", "size": len(case["lifecycle"]),
+                                      "title": "v%d history %r: contract lists %r, registered %r" % (ver, case["lifecycle"], listed, sorted(registered)),
+                                      "case": case, "version": ver, "features": {"why": "contract"}})
+        pa = asm.assemble(approval)
+        for nm in ("one", "two"):
+            txn = interp.default_txn(ApplicationArgs=[selector(nm + "()void")], OnCompletion=0, ApplicationID=7)
+            res = interp.run(pa, interp.Ctx(mode="A", group=[txn]), fuel=20000)
+            cnt["traces_validated"] = cnt.get("traces_validated", 0) + 1
+            if nm in registered:
+                ok = res.verdict == "APPROVE" and res.logs == [("M" + nm).encode()]
+                oc_["dispatched"] = oc_.get("dispatched", 0) + 1
+            else:
+                ok = res.verdict in ("REJECT", "FAIL")
+                oc_["rejected"] = oc_.get("rejected", 0) + 1
+            if not ok:
+                out["violations"].append({
+                    "driver": "lifecycle", "size": len(case["lifecycle"]),
+                    "title": "v%d history %r (registered %r): call of %s()void gave %s logs=%r" % (
+                        ver, case["lifecycle"], registered, nm, res.verdict, res.logs),
+                    "case": case, "version": ver, "teal": approval,
+                    "features": {"why": "dispatch", "expected_reject": nm not in registered}})
+
+
 def check_shared_action(case, out, versions):
     """family (h): ONE action object registered for the bare no_op call (config c1), the bare opt_in call (c2) and,
     optionally, as the clear-state action.  Every slot must behave as if it had its own copy."""
@@ -446,6 +510,11 @@ def check_collision(case, out, versions):
 def _worker(items, base):
     out = {"counters": {}, "outcomes": {}, "violations": [], "samples": []}
     for case in items:
+        if "lifecycle" in case:
+            check_lifecycle(case, out, _VERSIONS)
+            out["counters"]["states"] = out["counters"].get("states", 0) + 1
+            out["counters"]["transitions"] = out["counters"].get("transitions", 0) + len(case["lifecycle"])
+            continue
         if "shared" in case:
             check_shared_action(case, out, _VERSIONS)
             out["counters"]["states"] = out["counters"].get("states", 0) + 1
@@ -519,6 +588,8 @@ def router_cases(tier):
     for k in ACTION_KINDS:
         for place in ("bare", "clear"):
             cases.append({"action": k, "place": place})
+    # (i) router life cycles: compile - register - compile ...
+    cases += lifecycle_cases(4 if tier == "quick" else 5)
     # (h) one action object shared by several registration slots
     for c1 in (CALL, CREATE, ALL):
         for c2 in (CALL, CREATE, ALL):
@@ -553,7 +624,9 @@ def run(tier):
 
 def replay(case):
     out = {"counters": {}, "outcomes": {}, "violations": [], "samples": []}
-    if "shared" in case["case"]:
+    if "lifecycle" in case["case"]:
+        check_lifecycle(case["case"], out, (case["version"],))
+    elif "shared" in case["case"]:
         check_shared_action(case["case"], out, (case["version"],))
     elif "action" in case["case"]:
         check_action(case["case"], out, (case["version"],))
